@@ -18,5 +18,15 @@ out = ['# Independently seeded changes', '',
        '| id | property | change | needs | confirmed | check | first evaluation | note |', '|---|---|---|---|---|---|---|---|']
 for r in rows:
     out.append('| ' + ' | '.join(str(x) for x in r) + ' |')
+out += ['', '# Benign (behaviour-preserving) changes', '',
+        'Written by sub-agents as realistic refactorings that keep the property; evaluated with `tools/benign_eval.sh`:',
+        'the unedited test suite and the author\'s own equivalence script pass, and every listed check must exit 0.', '',
+        '| id | change | tests | checks | note |', '|---|---|---|---|---|']
+for f in sorted(glob.glob('/verif/seeded/benign/*/meta.json')):
+    d = json.load(open(f))
+    a = d.get('agent') or {}
+    out.append('| %s | %s | %s | %s | %s |' % (d['benign_id'], (a.get('summary') or '')[:300].replace('\n', ' ').replace('|', '/'),
+               d.get('tests_summary', '')[:40], ', '.join('%s: %s' % (k, 'green' if v == 0 else 'rc=%d' % v) for k, v in d['checks'].items()),
+               (d.get('note') or '').replace('\n', ' ').replace('|', '/')))
 open('/verif/seeded/README.md', 'w').write('\n'.join(out) + '\n')
 print('\n'.join(out[-len(rows):]))
